@@ -55,7 +55,39 @@ def c12_histories(rng, tier):
 def run(pid, tier):
     if pid == "C12":
         return seqcheck.check(pid, tier, extra_hook=c12_histories)
-    if pid in ("C01", "C02", "C08", "C11", "C05", "C09"):
+    if pid in ("C01", "C02", "C11"):
         return seqcheck.check(pid, tier)
+    if pid in ("C05", "C08", "C09"):
+        return both(pid, tier)
+    if pid in ("C03", "C04", "C06", "C10"):
+        import conccheck
+        return conccheck.check(pid, tier)
+    if pid == "C07":
+        import racecheck
+        return racecheck.check(pid, tier)
     print("no check for " + pid)
     return 2
+
+
+def both(pid, tier):
+    """sequential half + concurrent half, one evidence file"""
+    import time, conccheck, vlib
+    t0 = time.time()
+    sink = []
+    rc1 = seqcheck.check(pid, tier, sink=sink)
+    rc2 = conccheck.check(pid, tier, sink=sink)
+    if len(sink) == 2:
+        (c1, v1, a1), (c2, v2, a2) = sink
+        cov = dict(c2)
+        cov["trusted_base"] = sorted(set(c1["trusted_base"]) | set(c2["trusted_base"]))
+        cov["evaluations"] = c1["evaluations"] + c2["evaluations"]
+        cov["distinct_nontrivial"] = c1["distinct_nontrivial"] + c2["distinct_nontrivial"]
+        cov["rule"] = "sequential: " + c1["rule"] + " || concurrent: " + c2["rule"]
+        cov["samples"] = c1["samples"][:1] + c2["samples"][:1]
+        cov["traces_validated_against_impl"] = c1["traces_validated_against_impl"] + c2["traces_validated_against_impl"]
+        cov["disagreements_checked"] = c1["disagreements_checked"] + c2["disagreements_checked"]
+        cov["sequential_distribution"] = c1.get("distribution")
+        cov["concurrent_distribution"] = c2.get("distribution")
+        cov.pop("distribution", None)
+        vlib.write_evidence(pid, tier, "proof", cov, time.time() - t0, v1 + v2, a1 + a2)
+    return max(rc1, rc2)
